@@ -20,6 +20,10 @@ TEMPLATES = {
         ("comparams_group_rev", ["PROTOCOL", "FUNCTIONAL-GROUP", "BASE-VARIANT"], [], [["cp1", ""], ["cpx", ""], ["cpx", "L1"]], True),
         ("comparams_two_protocols_rev", ["PROTOCOL", "PROTOCOL", "BASE-VARIANT"], [], [["cp1", ""], ["cpx", ""], ["cpx", "L1"]], True),
         ("two_names_rev", ["PROTOCOL", "ECU-SHARED-DATA", "BASE-VARIANT"], ["o", "p"], [], True),
+        # two parents of equal priority that disagree, settled by a third parent of higher priority
+        ("two_protocols_shared", ["PROTOCOL", "PROTOCOL", "ECU-SHARED-DATA", "BASE-VARIANT"], ["o"], []),
+        # a layer without communication parameters (ECU-SHARED-DATA) listed after layers that have them
+        ("comparams_shared", ["PROTOCOL", "ECU-SHARED-DATA", "BASE-VARIANT"], [], [["cp1", ""], ["cpx", ""]]),
     ],
     "thorough": [
         ("chain", ["PROTOCOL", "FUNCTIONAL-GROUP", "BASE-VARIANT", "ECU-VARIANT"], ["o"], []),
@@ -38,6 +42,8 @@ TEMPLATES = {
         ("comparams_two_protocols_rev", ["PROTOCOL", "PROTOCOL", "BASE-VARIANT", "ECU-VARIANT"], [],
          [["cp1", ""], ["cpx", "L1"], ["cpx", ""]], True),
         ("two_names_rev", ["PROTOCOL", "ECU-SHARED-DATA", "BASE-VARIANT", "ECU-VARIANT"], ["o", "p"], [], True),
+        ("two_protocols_shared", ["PROTOCOL", "PROTOCOL", "ECU-SHARED-DATA", "BASE-VARIANT", "ECU-VARIANT"], ["o"], []),
+        ("comparams_shared", ["PROTOCOL", "ECU-SHARED-DATA", "BASE-VARIANT", "ECU-VARIANT"], [], [["cp1", ""], ["cpx", ""], ["cp1", "L1"]]),
     ],
 }
 
